@@ -80,6 +80,10 @@ func genC11(g *simrt.Tape, tier string) any {
 	sc.Cluster = g.Draw(5) == 0
 	sc.DefaultDialer = g.Draw(3) == 0
 	sc.DialCtxCancelled = g.Draw(3) == 0
+	if g.Draw(12) == 0 {
+		// the hang-up server: no planned connection faults besides it, a longer suffix
+		sc.HangUpServer, sc.Suffix, sc.Conns, sc.Behav = true, 5, nil, nil
+	}
 	return sc
 }
 
@@ -128,6 +132,15 @@ func execC11(x *X, scAny any) {
 		}
 		for i, rec := range sfx {
 			if i == 0 || !rec.returned {
+				continue
+			}
+			if w.sc.HangUpServer {
+				// the server hangs up after every reply: a call may find the connection gone and fail, the one after
+				// it uses a fresh connection and is answered
+				if rec.err != nil && sfx[i-1].returned && sfx[i-1].err != nil {
+					x.Reportf("C11.no-recovery", "consecutive-failures:"+errClass(rec.err), "the server answers every request and hangs up after each reply: suffix calls %d and %d both failed (%v, %v) although each was answered on a fresh connection; dials so far %d", i, i+1, sfx[i-1].err, rec.err, w.dials)
+					break
+				}
 				continue
 			}
 			if rec.err != nil {
@@ -284,6 +297,16 @@ func c11Floor(tier string) []*ClientSc {
 					}
 				}
 			}
+		}
+	}
+	// a server that hangs up after every reply, behind a transport whose writes return late
+	for _, enforce := range []bool{true, false} {
+		for n := 1; n <= 3; n++ {
+			calls := make([]CallSc, n)
+			for i := range calls {
+				calls[i] = CallSc{Kind: "request", Bytes: i == 1}
+			}
+			out = append(out, &ClientSc{Prop: "C11", Enforce: enforce, Suffix: 5, FinalClose: true, HangUpServer: true, Callers: []CallerSc{{Calls: calls}}})
 		}
 	}
 	return out
